@@ -20,7 +20,7 @@ fn any_addr() -> SocketAddrV4 {
 }
 
 /// A KrpcSocket around a raw descriptor that is never used: no bind(), no close() (forgotten).
-pub(crate) fn socket_with(server_mode: bool, inflight: InflightRequests) -> KrpcSocket {
+fn socket_with(server_mode: bool, inflight: InflightRequests) -> KrpcSocket {
     KrpcSocket {
         socket: unsafe { UdpSocket::from_raw_fd(3) },
         server_mode,
@@ -28,6 +28,11 @@ pub(crate) fn socket_with(server_mode: bool, inflight: InflightRequests) -> Krpc
         inflight_requests: inflight,
         poll_interval: MIN_POLL_INTERVAL,
     }
+}
+
+/// A socket with nothing in flight, for harnesses of other modules (they cannot name InflightRequests).
+pub(crate) fn idle_socket(server_mode: bool) -> KrpcSocket {
+    socket_with(server_mode, InflightRequests::new())
 }
 
 fn reply(tid: u32) -> Message {
